@@ -509,6 +509,34 @@ def read_sys_consts() -> None:
             raise TranslateError(f"{k} is derived differently: {got}")
 
 
+def read_page_base() -> str:
+    """Which address does _scan_page_links hand to the page parser as the base of the page's links?  `response.url` (the
+    address of the page that was served, after any redirect) -> PBResponseUrl; an expression that does not mention the
+    response (the address that was asked for) -> PBAskedUrl; anything else is not understood."""
+    fn = _fn(T.parse("req_compile/repos/pypi.py"), "_scan_page_links")
+    resp = [n for n in ast.walk(fn) if isinstance(n, ast.Assign) and len(n.targets) == 1
+            and isinstance(n.targets[0], ast.Name) and n.targets[0].id == "response"]
+    _need(len(resp) == 1 and isinstance(resp[0].value, ast.Call) and isinstance(resp[0].value.func, ast.Attribute)
+          and resp[0].value.func.attr == "get", "_scan_page_links: `response` is not assigned once from a .get(...) call")
+    mk = [n for n in ast.walk(fn) if isinstance(n, ast.Call) and isinstance(n.func, ast.Name) and n.func.id == "LinksHTMLParser"]
+    _need(len(mk) == 1 and len(mk[0].args) == 1 and not mk[0].keywords, "_scan_page_links: not exactly one LinksHTMLParser(<base>) call")
+    asg = [n for n in ast.walk(fn) if isinstance(n, ast.Assign) and n.value is mk[0]]
+    _need(len(asg) == 1 and isinstance(asg[0].targets[0], ast.Name), "_scan_page_links: the parser is not bound to a name")
+    pname = asg[0].targets[0].id
+    last = fn.body[-1]
+    _need(isinstance(last, ast.Return) and last.value is not None and ast.unparse(last.value) == pname + ".dists",
+          "_scan_page_links does not return the parser's dists")
+    feeds = [n for n in ast.walk(fn) if isinstance(n, ast.Call) and ast.unparse(n.func) == pname + ".feed"]
+    _need(len(feeds) == 1 and len(feeds[0].args) == 1 and ast.unparse(feeds[0].args[0]).startswith("response.content"),
+          "_scan_page_links: the parser is not fed the response's content once")
+    base = ast.unparse(mk[0].args[0])
+    if base == "response.url":
+        return "PBResponseUrl"
+    _need(not any(isinstance(n, ast.Name) and n.id == "response" for n in ast.walk(mk[0].args[0])),
+          f"_scan_page_links: link base {base!r} is derived from the response in a way that is not understood")
+    return "PBAskedUrl"
+
+
 def _need(cond: bool, what: str) -> None:
     if not cond:
         raise TranslateError(what)
@@ -626,6 +654,8 @@ def gen_consts() -> Tuple[str, Dict[str, Any]]:
     read(PYPI, "handle_data")
     read(PYPI, "LinksHTMLParser.__init__")
     info["page"] = {"anchor": k[0], "href": k[2], "requires": [k[5], k[7]]}
+    out.append("Inductive page_base := PBResponseUrl | PBAskedUrl.\n")
+    d("pg_base", "page_base", read_page_base())
     # --- hash
     k = read(PYPI, "PyPIRepository.resolve_candidate")
     _need(k[1] == k[2], "the '#' tested and the '#' partitioned on differ")
